@@ -37,6 +37,103 @@ def _full_name(mod, node):
     return d
 
 
+HELPER_CTORS = {}
+
+
+def _zone_name_rewrites(ctx, hf, ctor_calls):
+    """The name a helper hands to the zone constructor: for every reaching definition that is not the helper's own parameter
+    (possibly stripped of white space), the guard under which the name is rewritten.  A guard that is a match of a constant
+    regular expression is evaluated over the names pytz knows: a rewrite that fires on a valid IANA name changes which zone
+    that name means.  -> ('ok', None) | ('viol', text, node) | ('indet', text, node)"""
+    import re as _re
+    hflow = Flow.of(hf)
+    params = set(hf.params)
+
+    def is_param_like(v):
+        for _h in range(4):
+            if isinstance(v, ast.Call) and isinstance(v.func, ast.Attribute) and v.func.attr in ("strip", "lstrip", "rstrip") and not v.args:
+                v = v.func.value
+            elif isinstance(v, ast.Call) and isinstance(v.func, ast.Name) and v.func.id == "str" and len(v.args) == 1:
+                v = v.args[0]
+            else:
+                break
+        if isinstance(v, ast.Name) and v.id in params:
+            return True
+        if isinstance(v, ast.Name):
+            dv = hflow.def_value(v)
+            return dv is not None and is_param_like(dv)
+        return False
+
+    for call in ctor_calls:
+        if not call.args:
+            continue
+        a = call.args[0]
+        if not isinstance(a, ast.Name):
+            if is_param_like(a):
+                continue
+            return ("indet", "zone name %s is not a name" % ast.unparse(a)[:40], call)
+        for d in sorted(hflow.reaching_defs(a) or set(), key=str):
+            st = hflow.cfg.stmt_of.get(d)
+            if st is None:
+                if a.id in params:
+                    continue
+                return ("indet", "definition of %s not found" % a.id, call)
+            if not (isinstance(st, ast.Assign) and len(st.targets) == 1 and isinstance(st.targets[0], ast.Name)):
+                return ("indet", "zone name bound by %s" % type(st).__name__, st)
+            if is_param_like(st.value):
+                continue
+            # a rewrite: find the guard
+            g = getattr(st, "parent", None)
+            child = st
+            m = t = None
+            while isinstance(g, ast.If):
+                if child in g.body:
+                    t = g.test
+                    mm = hflow.def_value(t) if isinstance(t, ast.Name) else t
+                    if isinstance(mm, ast.Compare) and len(mm.ops) == 1 and isinstance(mm.ops[0], ast.IsNot) and isinstance(mm.comparators[0], ast.Constant) \
+                            and mm.comparators[0].value is None:
+                        mm = hflow.def_value(mm.left) if isinstance(mm.left, ast.Name) else mm.left
+                    if isinstance(mm, ast.Call) and isinstance(mm.func, ast.Attribute) and mm.func.attr in ("search", "match", "fullmatch"):
+                        m = mm
+                        break
+                child, g = g, getattr(g, "parent", None)
+            if t is None:
+                return ("indet", "zone name rewritten as %s outside a guard" % ast.unparse(st.value)[:50], st)
+            if m is None:
+                return ("indet", "zone name rewritten under `%s`: not a regular-expression test" % ast.unparse(t)[:50], st)
+            method = m.func.attr
+            recv = m.func.value
+            pat_node, flag_nodes = None, []
+            if isinstance(recv, ast.Name) and recv.id == "re" and len(m.args) >= 2:
+                pat_node, flag_nodes = m.args[0], list(m.args[2:]) + [k.value for k in m.keywords if k.arg == "flags"]
+            else:
+                cdef = hf.module.constants.get(recv.id) if isinstance(recv, ast.Name) else None
+                if isinstance(cdef, ast.Call) and isinstance(cdef.func, ast.Attribute) and cdef.func.attr == "compile" and cdef.args:
+                    pat_node, flag_nodes = cdef.args[0], list(cdef.args[1:]) + [k.value for k in cdef.keywords if k.arg == "flags"]
+            pat = const_str(pat_node, hf.module) if pat_node is not None else None
+            if pat is None:
+                return ("indet", "pattern of the zone-name test is not a constant", st)
+            flags = 0
+            for fnode in flag_nodes:
+                for x in ast.walk(fnode):
+                    if isinstance(x, ast.Attribute) and hasattr(_re, x.attr) and x.attr.isupper():
+                        flags |= int(getattr(_re, x.attr))
+            try:
+                rx = _re.compile(pat, flags)
+                import pytz as _pytz
+                hits = [z for z in _pytz.all_timezones if getattr(rx, method)(z)]
+            except Exception as exc:
+                return ("indet", "pattern not evaluable: %s" % exc, st)
+            partial = [z for z in hits if (lambda mo: mo is not None and (mo.start() > 0 or mo.end() < len(z)))(getattr(rx, method)(z))]
+            if hits and not partial:
+                return ("indet", "the zone name is rewritten for names pytz already knows (%s), matched as a whole; whether the rewritten name means the same zone is not decided" % ", ".join(hits[:4]), st)
+            if partial:
+                hits = partial
+                return ("viol", "the zone name is rewritten (%s) whenever `%s.%s` finds %r in it: that fires inside %d longer names pytz already knows, e.g. %s"
+                        % (ast.unparse(st.value)[:50], ast.unparse(recv)[:30], method, pat[:50], len(hits), ", ".join(hits[:4])), st)
+    return ("ok", None, None)
+
+
 def tz_provenance(ctx):
     """{(func fq, name): 'pytz'|'zoneinfo'} by interprocedural propagation."""
     prov = {}
@@ -56,6 +153,26 @@ def tz_provenance(ctx):
                     prov[(f.fq, n.targets[0].id)] = "pytz"
                 elif fn in ZONEINFO_CTORS:
                     prov[(f.fq, n.targets[0].id)] = "zoneinfo"
+    # a helper of the package whose every return is a pytz / zoneinfo constructor call is a constructor itself
+    for hf in ctx.repo.all_funcs():
+        if hf.module.name.startswith("plot_"):
+            continue
+        rets = [r for r in ast.walk(hf.node) if isinstance(r, ast.Return) and r.value is not None and enclosing_func(r) is hf.node]
+        kinds = set()
+        for r in rets:
+            fn = _full_name(hf.module, r.value.func) if isinstance(r.value, ast.Call) else None
+            kinds.add("pytz" if fn in PYTZ_CTORS else ("zoneinfo" if fn in ZONEINFO_CTORS else None))
+        if rets and len(kinds) == 1 and None not in kinds:
+            HELPER_CTORS[hf.fq] = (hf, [r.value for r in rets], next(iter(kinds)))
+    for f in ctx.repo.all_funcs():
+        for n in ast.walk(f.node):
+            if isinstance(n, ast.Assign) and len(n.targets) == 1 and isinstance(n.targets[0], ast.Name) and isinstance(n.value, ast.Call):
+                try:
+                    tg = ctx.cg.resolve_callee(f, n.value.func)
+                except Exception:
+                    tg = []
+                if len(tg) == 1 and tg[0] in HELPER_CTORS:
+                    prov[(f.fq, n.targets[0].id)] = HELPER_CTORS[tg[0]][2]
     changed = True
     while changed:
         changed = False
@@ -195,6 +312,24 @@ def run(ctx, chk, tier="quick"):
         v = lflow.def_value(tzarg)
         okname = False
         desc = ast.unparse(v) if v is not None else "?"
+        via_helper = None
+        if isinstance(v, ast.Call):
+            try:
+                tg_ = ctx.cg.resolve_callee(load, v.func)
+            except Exception:
+                tg_ = []
+            if len(tg_) == 1 and tg_[0] in HELPER_CTORS:
+                via_helper = HELPER_CTORS[tg_[0]]
+        if via_helper is not None:
+            hf_, ctor_calls_, _k = via_helper
+            verdict = _zone_name_rewrites(ctx, hf_, ctor_calls_)
+            if verdict[0] == "viol":
+                chk.ob("C11.O2", False, where_of(hf_, verdict[2]), verdict[1],
+                       "every IANA zone name is looked up as it is: a rewrite of the declared name may fire only on spellings pytz does not know",
+                       key="load|zone-name-rewritten", local=True,
+                       why="timestamps are read as local time in the declared zone: for the names the rewrite fires on (Etc/GMT+5 becomes Etc/GMT-5) every epoch is stored hours off, and source_time_zone records the other zone")
+            elif verdict[0] == "indet":
+                chk.indeterminate("C11.O2", where_of(hf_, verdict[2]), "zone constructed through %s: %s" % (hf_.qualname, verdict[1]))
         if isinstance(v, ast.Call) and v.args:
             a = v.args[0]
             if isinstance(a, ast.Name) and lflow.is_param(a):
